@@ -24,7 +24,11 @@ REGISTRY = []
 
 class Loop(object):
     def __init__(self, vars=None, inv=None, variant=None, heap=None, ghost=None, elem=None,
-                 done_name="done", note=None, hint=None, tail=None, min_decrease=1, open_dicts=()):
+                 done_name="done", note=None, hint=None, tail=None, min_decrease=1, open_dicts=(),
+                 any_order=False, writes=None, temps=()):
+        self.any_order = any_order      # for over a concrete dict: each key once, in an arbitrary order
+        self.writes = writes            # {key: [locals that iteration may bind]} (pairwise disjoint)
+        self.temps = tuple(temps)
         self.open_dicts = tuple(open_dicts)
         self.hint = hint
         self.tail = tail
